@@ -43,12 +43,21 @@ def gen_opaque(t):
             a('w_rs_%d%d' % (ka, ks), '%s& o, const %s& A, const %s& B' % (M4, M4, M4), 'o = computeRSMatrix(%s, %s, A, B);' % ('true' if ka else 'false', 'true' if ks else 'false'), k='rs', ka=ka, ks=ks)
     return tu
 
-def gen_shrt(t):
+def gen_shrt(t, orders=()):
     E = ELEM[t][0]
     M4 = 'Matrix44<%s>' % E
     tu = TU('c12s_' + t, opaque=('extractAndRemoveScalingAndShear', 'extractEulerXYZ'))
     tu.add('w_shrt44', 'bool& r, const %s& m, Vec3<%s>& s, Vec3<%s>& h, Vec3<%s>& ro, Vec3<%s>& tr' % (M4, E, E, E, E), 'r = extractSHRT(m, s, h, ro, tr, false);', k='shrt', d=4)
+    # the rotation-order overload: the angles returned are those of the requested order (XYZ layout)
+    Eu = 'Euler<%s>' % E
+    for o in orders:
+        tu.add('w_shrtO_' + o, 'bool& r, const %s& m, Vec3<%s>& s, Vec3<%s>& h, Vec3<%s>& ro, Vec3<%s>& tr' % (M4, E, E, E, E), 'r = extractSHRT(m, s, h, ro, tr, false, %s::%s);' % (Eu, o), k='shrtO', d=4, order=o)
+        tu.add('w_eulm_' + o, 'Matrix33<%s>& m, const Vec3<%s>& a' % (E, E), '%s e(a, %s::%s, %s::XYZLayout); m = e.toMatrix33();' % (Eu, Eu, o, Eu), k='aux', d=3)
+    tu.add('w_eulm_XYZ', 'Matrix33<%s>& m, const Vec3<%s>& a' % (E, E), '%s e(a, %s::XYZ); m = e.toMatrix33();' % (Eu, Eu), k='aux', d=3)
     return tu
+
+SHRT_ORDERS_QUICK = ('YZX', 'ZYX', 'XYX')
+SHRT_ORDERS_ALL = ('XZY', 'YZX', 'YXZ', 'ZXY', 'ZYX', 'XZX', 'XYX', 'YXY', 'YZY', 'ZYZ', 'ZXZ', 'XYZr', 'XZYr', 'YZXr', 'YXZr', 'ZXYr', 'ZYXr', 'XZXr', 'XYXr', 'YXYr', 'YZYr', 'ZYZr', 'ZXZr')
 
 def gen_inline(t):
     E = ELEM[t][0]
@@ -420,7 +429,7 @@ def out_atoms(call, idx, n, sz, lt):
 
 def main(rep, ws, tier):
     types = 'f' if tier == 'quick' else 'fd'
-    tuo = [gen_opaque(t) for t in types]; tui = [gen_inline(t) for t in types]; tus = [gen_shrt(t) for t in types]; tuj = [gen_jacobi(t) for t in types]
+    tuo = [gen_opaque(t) for t in types]; tui = [gen_inline(t) for t in types]; tus = [gen_shrt(t, SHRT_ORDERS_QUICK if tier == 'quick' else SHRT_ORDERS_ALL) for t in types]; tuj = [gen_jacobi(t) for t in types]
     tum = [gen_measure(t) for t in types]; tue = [gen_eigsel(t) for t in types]
     an = Analysed(ws, tuo + tui + tus + tuj + tum + tue, rep)
     for tm, te, t in zip(tum, tue, types):
@@ -433,7 +442,8 @@ def main(rep, ws, tier):
         for name, m in list(to.meta.items()) + list(ts.meta.items()):
             oid = '%s<%s>' % (name[2:], E)
             S = (an[ts] if name in ts.meta else R).get(name)
-            rule = {'recompose': 'R12.recompose', 'recompose_ip': 'R12.recompose', 'ss': 'R12.ss', 'rs': 'R12.rs', 'shrt': 'R12.shrt'}[m['k']]
+            if m['k'] == 'aux': continue
+            rule = {'recompose': 'R12.recompose', 'recompose_ip': 'R12.recompose', 'ss': 'R12.ss', 'rs': 'R12.rs', 'shrt': 'R12.shrt', 'shrtO': 'R12.shrt'}[m['k']]
             if S is None:
                 rep.ob(oid, rule, UNDECIDED, R.err.get(name, '')); continue
             where = fn_where(S.fn)
@@ -550,6 +560,67 @@ def main(rep, ws, tier):
                         if not ctx.requal(ctx.rat(leaf[0]), (ctx.reduce(want[i // 4][i % 4]), ONE)):
                             bad = 'entry [%d][%d] = %s, expected Scale(%s)*Rotation(%s)*Translation(A)' % (i // 4, i % 4, P.show_rat(ctx.rat(leaf[0]), ctx)[:120], 'A' if m['ks'] else 'B', 'A' if m['ka'] else 'B'); break
                     rep.ob(oid, rule, VIOLATED if bad else HOLDS, bad or 'Scale(%s) * Rotation(%s) * Translation(A); domain_error when an extraction fails' % ('A' if m['ks'] else 'B', 'A' if m['ka'] else 'B'), where)
+                elif m['k'] == 'shrtO':
+                    # r = F(x, y, z) with (x, y, z) the XYZ angles left by extractEulerXYZ: the rotation of order `order` built from
+                    # F (XYZ layout) is the XYZ rotation of (x, y, z) - sines and cosines rational in tan(angle/2), generic cell
+                    from .c11 import tan_half_ctx
+                    Rs_ = an[ts]
+                    ro = [S.out('a4', i * sz, sz, lt) for i in range(3)]
+                    # the generic path: the extraction succeeded
+                    for _ in range(6):
+                        pre = {}
+                        for x_ in ro:
+                            for c in P.all_conds(x_):
+                                if find_call(c, 'extractAndRemove') is None or find_call(c, 'extractEulerXYZ') is not None: continue
+                                if c.op == 'call': pre[c] = True
+                                elif c.op == 'icmp' and c.attr in ('eq', 'ne') and any(z.op == 'const' and T.const_value(z) == 0 for z in c.args): pre[c] = (c.attr == 'ne')
+                        if not pre: break
+                        ro = [T.resolve(x_, pre) for x_ in ro]
+                    def fold_sel(x_):
+                        # sel(mem(under, off, v, ...), off) -> v once the conditional memory has been resolved
+                        while x_.op == 'sel' and x_.args[0].op == 'mem' and x_.args[1].op == 'const':
+                            ma = x_.args[0].args; off_ = T.signed(x_.args[1]); hit = None
+                            for i_ in range(1, len(ma), 2):
+                                if T.signed(ma[i_]) == off_: hit = ma[i_ + 1]
+                            if hit is None or hit.ty != x_.ty: break
+                            x_ = hit
+                        return x_
+                    ro = [fold_sel(x_) for x_ in ro]
+                    call = find_call(ro[0], 'extractEulerXYZ')
+                    if call is None:
+                        rep.ob(oid, rule, VIOLATED, 'the angles do not come from extractEulerXYZ of the orthonormalised matrix', where); continue
+                    cand = [i for i in range(len(call.args))]
+                    ang = [agg.slot_in('a8', i, t) for i in range(3)]
+                    F = None
+                    for idx in cand:
+                        oa = out_atoms(call, idx, 3, sz, lt)
+                        used = set(); st_ = list(ro); sn_ = set()
+                        while st_:
+                            x_ = st_.pop()
+                            if x_.id in sn_: continue
+                            sn_.add(x_.id); st_.extend(x_.args)
+                            for a_ in oa:
+                                if x_ is a_: used.add(a_.id)
+                        if len(used) >= 2:
+                            memo = {}
+                            F = [T.subst(x_, dict(zip(oa, ang)), memo) for x_ in ro]; break
+                    if F is None:
+                        rep.ob(oid, rule, UNDECIDED, 'the angle outputs of extractEulerXYZ were not found in the result', where); continue
+                    SMo, SMx = Rs_.get('w_eulm_' + m['order']), Rs_.get('w_eulm_XYZ')
+                    if SMo is None or SMx is None:
+                        rep.ob(oid, rule, UNDECIDED, 'auxiliary Euler matrices not analysed', where); continue
+                    ain = [agg.slot_in('a1', i, t) for i in range(3)]
+                    memo = {}
+                    Mo = [T.subst(SMo.out('a0', i * sz, sz, lt), dict(zip(ain, F)), memo) for i in range(9)]
+                    memo = {}
+                    Mx = [T.subst(SMx.out('a0', i * sz, sz, lt), dict(zip(ain, ang)), memo) for i in range(9)]
+                    ctx = tan_half_ctx(ang, t, True)
+                    bad = None
+                    for i in range(9):
+                        a_, b_ = ctx.rat(Mo[i]), ctx.rat(Mx[i])
+                        if not ctx.requal(a_, b_):
+                            bad = 'entry [%d][%d] of Euler(r, %s, XYZLayout).toMatrix33() is %s; the rotation extracted from the matrix (XYZ angles x, y, z) has %s: S*H*R*T no longer recomposes to the input for this order' % (i // 3, i % 3, m['order'], P.show_rat(a_, ctx)[:120], P.show_rat(b_, ctx)[:120]); break
+                    rep.ob(oid, rule, VIOLATED if bad else HOLDS, bad or 'the angles returned for order %s give the rotation of the extracted XYZ angles (generic cell, t_i = tan(angle_i/2))' % m['order'], where, nontrivial=True)
                 elif m['k'] == 'shrt':
                     tr = [S.out('a5', i * sz, sz, lt) for i in range(3)]
                     ok_t = None
